@@ -70,6 +70,10 @@ def one(n, pairs, sh, V, k, D, T, base, form, rng):
         rec["Qc"] = [[int(v) for v in row] for row in R.tolist()]
         c = rng.uniform(-30, 30)
         with quiet():
+            again = SQRA(E, np.array(V, dtype=float), hm, Sm).get_rate_matrix(float(D), T).toarray()     # the same inputs once more
+        if not np.array_equal(again, A):
+            rec["exact"] = False           # a second evaluation on the same input objects differs: the inputs were modified
+        with quiet():
             Q2 = SQRA(E + c, np.array(V, dtype=float), hm, Sm).get_rate_matrix(float(D), T).toarray()
             Q3 = SQRA(E, np.array(V, dtype=float), hm, Sm).get_rate_matrix(2.0 * D, T).toarray()
         scale = np.maximum(np.abs(A), 1e-300)
